@@ -15,13 +15,14 @@ echo "== 3. demo with the change (expect failure)"
 (cd $WT && timeout 120 /venv/bin/python SEEDED/demo.py >/tmp/demo_with.log 2>&1; echo "exit $?"; tail -2 /tmp/demo_with.log)
 echo "== 4. demo without the change (expect pass)"
 (cd $WT && git stash -q && timeout 120 /venv/bin/python SEEDED/demo.py >/tmp/demo_without.log 2>&1; echo "exit $?"; tail -1 /tmp/demo_without.log; git stash pop -q)
-echo "== 5. checks against the change"
-git -C /repo apply $OUT/patch.diff
+echo "== 5. checks against the change (scratch copy of /repo with the patch applied)"
+SCR=/tmp/sc3-seeded-$$
+rm -rf $SCR; mkdir -p $SCR
+rsync -a --exclude .git --exclude __pycache__ /repo/ $SCR/
+(cd $SCR && patch -p1 -s < $OUT/patch.diff) || { echo "patch failed on the copy"; exit 1; }
 for Q in $P "$@"; do
-  out=$(VERIF_EVIDENCE_DIR=/tmp/seeded-ev-$$ /verif/check $Q --tier quick --no-shrink 2>&1 | grep -v "^WARNING")
+  out=$(VERIF_REPO=$SCR VERIF_EVIDENCE_DIR=/tmp/seeded-ev-$$ /verif/check $Q --tier quick --no-shrink 2>&1 | grep -v "^WARNING")
   echo "$Q: $(echo "$out" | tail -1)"
   echo "$out" | grep -A1 "^VIOLATION" | head -4 | cut -c1-300
 done
-git -C /repo checkout -- .
-rm -rf /tmp/seeded-ev-$$
-git -C /repo status --short | head -3
+rm -rf /tmp/seeded-ev-$$ $SCR
